@@ -18,12 +18,63 @@ RULE = (
     "alias replaced by the canonical path and the links removed - per-line attribution keyed by (real file, line) and "
     "get_setmap must be identical, links add nothing to any total, links whose target is outside the root are not "
     "members, cbi-tree shows links as `name -> target` without adding them to directory sums, cbi-cov entries reached "
-    "through a link carry the target's lines; the decorated code base is analysed once more through a symbolic link to its root directory. Non-trivial: some file is reached through >=2 different spellings in one "
+    "through a link carry the target's lines; the decorated code base is analysed once more through a symbolic link to its root directory. Constructed scenario (half of the cases): two include directives evaluated from one directory (in one file or in two files of one platform, quote form or angle form through -I) spelled `du.h` and `ext/../du.h`, where `ext` links to a directory elsewhere, so that they name two different files (or the plain one names nothing); the twin spells the far file canonically. Non-trivial: some file is reached through >=2 different spellings in one "
     "run, one of them through a directory link; distinct by tree+decoration."
 )
 ASSUMPTIONS = [
     "compilers are deliberately not the oracle (they resolve quote includes relative to the path as spelled); the canonical twin is, as the statement says",
 ]
+
+
+DETOUR_DIR = "dt/a"  # the directory of the including file(s) of the constructed `<dirlink>/..` scenario
+
+
+def detours():
+    """Constructed scenario: two include directives evaluated from the same directory (one file, or two files
+    compiled for one platform) whose spellings differ only by a `<dirlink>/..` detour.  The link points to a
+    directory whose parent is not the link's parent, so the operating system resolves the two spellings to two
+    DIFFERENT places (`..` after a link is the parent of the link's target); textually they normalise to the same
+    name.  The twin spells the far file canonically and has no link."""
+    from hypothesis import strategies as st
+
+    return st.fixed_dictionaries(
+        {
+            "far": st.sampled_from(["dt/b", "dt/b/c", "dtb", "dt/a/in", "dt"]),  # where `ext/..` really is
+            "form": st.sampled_from(["quote", "angle"]),  # angle: found through -I <the includer's directory>
+            "near_spelling": st.sampled_from(["du.h", "./du.h"]),
+            "far_spelling": st.sampled_from(["ext/../du.h", "./ext/../du.h", "ext/./../du.h"]),  # no `//`: inside <...> the tree under test takes it for a comment (a separate matter, not C15's)
+            "near_exists": st.booleans(),  # False: the plain spelling names nothing (a memoised failure must not hide the other)
+            "far_first": st.booleans(),
+            "split": st.booleans(),  # the two directives sit in two files compiled by two commands of one platform
+            "ext": st.sampled_from([".c", ".cpp"]),
+            "lines": st.tuples(st.integers(1, 3), st.integers(1, 3)),
+        }
+    )
+
+
+def add_detour(c, pname):
+    """adds the files, marked include items and compile commands of c["detour"] to the case (in place)"""
+    dt = c["detour"]
+    A, B = DETOUR_DIR, dt["far"]
+
+    def hdr(n):
+        return {"items": [["code", n]], "style": [0]}
+
+    c["tree"][B + "/sub/in.h"] = hdr(1)  # makes the link's target directory exist
+    c["tree"][B + "/du.h"] = hdr(dt["lines"][1])
+    if dt["near_exists"]:
+        c["tree"][A + "/du.h"] = hdr(dt["lines"][0])
+    # ["include", form, canonical spelling, "DETOUR", decorated spelling]
+    near = ["include", dt["form"], "du.h", "DETOUR", dt["near_spelling"]]
+    far = ["include", dt["form"], os.path.relpath(B + "/du.h", A), "DETOUR", dt["far_spelling"]]
+    incs = [far, near] if dt["far_first"] else [near, far]
+    if dt["split"]:
+        hosts = {f"{A}/dtm{i}{dt['ext']}": [inc, ["code", 1]] for i, inc in enumerate(incs)}
+    else:
+        hosts = {f"{A}/dtm0{dt['ext']}": [incs[0], ["code", 1], incs[1], ["code", 1]]}
+    for h, items in hosts.items():
+        c["tree"][h] = {"items": items, "style": [0]}
+        c["platforms"][pname].append({"file": h, "defines": [], "dirs": [["I", A]] if dt["form"] == "angle" else [], "forced": []})
 
 
 def case_strategy():
@@ -75,6 +126,9 @@ def case_strategy():
         c["dlinks"], c["flinks"] = dlinks, flinks
         c["outside_link"] = draw(st.booleans())
         c["alias_choices"] = draw(st.lists(st.integers(0, 7), min_size=8, max_size=8))
+        c["detour"] = draw(st.none() | detours())
+        if c["detour"]:
+            add_detour(c, draw(st.sampled_from(sorted(c["platforms"]))))
         return c
 
     return case()
@@ -140,6 +194,9 @@ def decorate(case):
                     spell = spell  # plain relative path
                 deco["tree"][fname]["items"][idx] = ["include", "quote", spell]
                 twin["tree"][fname]["items"][idx] = ["include", "quote", it[2]]
+            elif it[0] == "include" and len(it) > 4 and it[3] == "DETOUR":
+                deco["tree"][fname]["items"][idx] = ["include", it[1], it[4]]
+                twin["tree"][fname]["items"][idx] = ["include", it[1], it[2]]
     for pname, cmds in case["platforms"].items():
         for i, cmd in enumerate(cmds):
             deco["platforms"][pname][i]["file"] = pick(aliases_of(cmd["file"], dlinks, flinks))
@@ -149,6 +206,8 @@ def decorate(case):
         links[ln] = os.path.relpath(tgt, os.path.dirname(ln) or ".")
     for ln, tgt in flinks.items():
         links[ln] = os.path.relpath(tgt, os.path.dirname(ln) or ".")
+    if case.get("detour"):
+        links[DETOUR_DIR + "/ext"] = os.path.relpath(case["detour"]["far"] + "/sub", DETOUR_DIR)
     if case["outside_link"]:
         links["lout.h"] = "../outside/real.h"
         deco.setdefault("extra", {})["../outside/real.h"] = "int outside;\n"
@@ -273,8 +332,9 @@ def check_case(case, res: Result, cli=False):
         via_dirlink = any(any(seg in f for seg in deco["symlinks"] if seg.split("/")[-1].startswith("ld")) for cmds in deco["platforms"].values() for c in cmds for f in [c["file"]] + [d for _, d in c["dirs"]]) or any(
             any(ln.split("/")[-1] in t for ln in case["dlinks"]) for t in mD["texts"].values()
         )
-        nt = bool(case["dlinks"]) and via_dirlink
-        res.case(key=[mD["texts"], deco["platforms"], deco["symlinks"]], nontrivial=nt, sample={"links": deco["symlinks"], "platforms": {p: [cbcase.argv_for(c) for c in cs] for p, cs in deco["platforms"].items()}, "includes": sorted({ln.strip() for t in mD["texts"].values() for ln in t.splitlines() if "include" in ln})[:8]} if nt else None, labels=[f"dlinks={len(case['dlinks'])}", f"flinks={len(case['flinks'])}", "outside-link" if case["outside_link"] else "no-outside-link"])
+        dt = case.get("detour")
+        nt = (bool(case["dlinks"]) and via_dirlink) or bool(dt)
+        res.case(key=[mD["texts"], deco["platforms"], deco["symlinks"]], nontrivial=nt, sample={"links": deco["symlinks"], "platforms": {p: [cbcase.argv_for(c) for c in cs] for p, cs in deco["platforms"].items()}, "includes": sorted({ln.strip() for t in mD["texts"].values() for ln in t.splitlines() if "include" in ln})[:8]} if nt else None, labels=[f"dlinks={len(case['dlinks'])}", f"flinks={len(case['flinks'])}", "outside-link" if case["outside_link"] else "no-outside-link", f"detour={dt['form']},{'split' if dt['split'] else 'one-file'},{'near-exists' if dt['near_exists'] else 'near-missing'}" if dt else "no-detour"])
     return vs
 
 
